@@ -6,7 +6,8 @@
    RowSem(sheet) and the implementation's output (translation validation). *)
 From Coq Require Import List NArith Bool.
 From RPFT Require Import Base.Sexp Base.SexpEq Base.Result Gen.Tables Flow.Lts Flow.Flow Flow.FlowFacts Flow.RowSem
-     Comp.Compile Comp.CompileExamples Comp.CompileExampleFacts Comp.Refine Comp.RefineStep Comp.RefineFinal Comp.RefineFrag Comp.RefineExamples.
+     Comp.Compile Comp.CompileExamples Comp.CompileExampleFacts Comp.Refine Comp.RefineStep Comp.RefineFinal Comp.RefineFrag Comp.RefineExamples
+     Comp.RefineRefuted Comp.RefineSheet.
 Import ListNotations.
 
 (* the checker is sound for any label-matching relation (used with wildcard matching on
@@ -32,29 +33,121 @@ Print Assumptions C02_checker_nonvacuous.
 
 (* ------------------------------------------------------------------------------------------------------------
    The compiler itself (model Comp/Compile.v, tied to the code by differential execution, see C01): FOR EVERY SHEET
-   OF THE FRAGMENT the compiled flow and the reference meaning of the rows (Flow/RowSem.v) have the same traces, in
-   both directions, labels matched up to the names the sheet does not fix (wildcards on the reference side).
+   of the core row vocabulary the compiled flow and the reference meaning of the rows (Flow/RowSem.v) have the same
+   traces, in both directions, labels matched up to the names the sheet does not fix (wildcards on the reference
+   side) - action rows, wait_for_response, split_by_value, split_by_group, split_random, start_new_flow,
+   call_webhook, transfer_airtime, go_to, no_op (forwarding and decision), hard_exit, loose_exit,
+   begin_block/end_block (nested); conditional edges from action rows (implicit routers and waits), re-targeting,
+   anonymous rows, blank `from`; named categories (two tests that name the same category share it, the edge
+   written last says where it leads), named / unnamed / re-targeted buckets; node names and given `_nodeId`s (action
+   rows merged into one node); any first row (both flows start at the first node in sheet order).
 
-   The fragment (Comp/RefineStep.v: row_ok, decided by Comp/Refine.v: fragb): action rows, wait_for_response,
-   split_by_value, split_by_group, start_new_flow, call_webhook, transfer_airtime, go_to, no_op (forwarding and
-   decision), hard_exit, loose_exit, begin_block/end_block (nested); conditional edges from action rows (implicit
-   routers and waits), re-targeting, anonymous rows, blank `from`; the first row is a node row.
-   NOT in the fragment (what is missing for the full statement compile_refines_rowsem): named categories on edges
-   (condition_name), split_random rows, node names / given `_nodeId`s (merged rows).  For those the statement is
-   decided per sheet by the verified checker (translation validation, C02_sim_check_sound). *)
-Theorem C02_compile_refines_rowsem_partial : forall fresh,
+   What is left of premises (Comp/RefineStep.v: row_ok, decided by the executable Comp/Refine.v: fragb):
+   (1) the INPUT ENCODING (what harness/rowref.py + comp_corr.py produce for a row): the abstract type of a node row
+       is the one of its kind (class, initial decision, at most the one action); a given `_nodeId` is the row's node
+       name and is not the hard-exit marker;
+   (2) `reads_same` and the argument clauses of edge_ok: the code of this run reads the row as the reference does -
+       blank padding entries are not edges, a has_group test names its group - DECIDED by the probed constants of
+       Gen/Tables.v (C02_reading_agrees_decided): on a tree with the repairs a05766f, f02a865, 7eafa08 they hold of
+       every row;
+   (3) NO NAME CLASH: G : GenNames is any set of names that holds "Other" and, for every unnamed condition of the
+       sheet, the names generate_category_name may invent for it; an EXPLICIT category name must lie outside G and
+       differ from "No Response", an explicit bucket name must not be one of the names "Bucket <n>"
+       RandomRouter.add_choice invents.  `sheet_names rows` (Comp/RefineFrag.v) is the least such G of a sheet.
+   Premise (3) is DECIDED by the probed constant explicit_names_claimed (C02_names_decided): on a tree with the repair of
+   the finding category-name-clash it is True of every condition; on a tree without it the statement without (3) is
+   FALSE of the faithful model (C02_clash_*_decided below).  As long as the repair is not in the tree the theorem keeps
+   the suffix _partial. *)
+Theorem C02_compile_refines_rowsem_partial : forall (G : GenNames) fresh,
   (forall a b : nat, fresh a = fresh b -> a = b) -> (forall k, fresh k <> hard_exit_sentinel) ->
   forall validate name rows f ref,
   (forall us, validate us = None -> NoDup us) ->
-  Forall row_ok rows -> no_given rows -> starts_with_node rows ->
+  Forall (@row_ok G) rows -> Forall reads_same rows ->
   compile_with fresh validate name rows = Ok f -> rowsem nab (map cr_row rows) = Some ref ->
   (forall t, traces ref t -> exists t', traces f t' /\ Forall2 (ematch sexp smatch) t t')
   /\ (forall t, traces f t -> exists t', traces ref t' /\ Forall2 (ematch sexp (fun a b => smatch b a)) t t').
-Proof. exact compile_refines_rowsem_partial. Qed.
+Proof. exact @compile_refines_rowsem_partial. Qed.
 Print Assumptions C02_compile_refines_rowsem_partial.
 
+(* the premise on explicit category names is decided by the probed constant explicit_names_claimed.  On a tree where
+   SwitchRouter.get_or_create_category looks an explicit name up among ALL categories of the router (the finding
+   category-name-clash) the statement without that premise is FALSE: three sheets (a wait_for_response row and two
+   message rows each) compile and have a meaning, with an input/outcome sequence of the reference flow that NO trace of
+   the compiled flow matches - a category named like the name invented for an earlier test ("yes" -> "Yes"), like the
+   default category ("Other"), like the No Response category (replayed on the implementation: findings.d/C02.json).
+   On a tree where an explicit name claims its name (the repair) the first sheet compiles to a flow the verified checker
+   accepts against the reference and the other two are refused - and cname_ok, the premise, is True (C02_names_decided). *)
+Theorem C02_clash_generated_name_decided : if explicit_names_claimed then accepted ex_clash_gen else not_refined ex_clash_gen.
+Proof. exact clash_generated_name_decided. Qed.
+Print Assumptions C02_clash_generated_name_decided.
+Theorem C02_clash_default_name_decided :
+  if explicit_names_claimed then compile std_fresh ex_name ex_clash_other = Err ECatNameTaken else not_refined ex_clash_other.
+Proof. exact clash_default_name_decided. Qed.
+Print Assumptions C02_clash_default_name_decided.
+Theorem C02_clash_no_response_name_decided :
+  if explicit_names_claimed then compile std_fresh ex_name ex_clash_noresp = Err ECatNameTaken else not_refined ex_clash_noresp.
+Proof. exact clash_no_response_name_decided. Qed.
+Print Assumptions C02_clash_no_response_name_decided.
+
+Theorem C02_names_decided : forall (G : GenNames) c,
+  if explicit_names_claimed then @cname_ok G c
+  else @cname_ok G c <-> match c_cname c with [] => @gen_ok G c | nm => ~ @gname G nm /\ nm <> s_NoResponse end.
+Proof. exact @names_decided. Qed.
+Print Assumptions C02_names_decided.
+
+(* decided for the code of this run: where does it read rows as the reference does?  With the repairs a05766f and
+   f02a865 (and the has_group repair of NoOpNodeGroup.add_exit, a candidate patch) everywhere; before them only
+   in rows without padding entries / in conditions that are not has_group tests. *)
+Theorem C02_reading_agrees_decided :
+  (if padding_edges_dropped_at_read then forall cr, reads_same cr
+   else forall cr, no_paddingb (r_edges (cr_row cr)) = true -> reads_same cr)
+  /\ (if has_group_edges_by_name && has_group_by_name_from_noop
+      then forall c, row_args c = ref_args c /\ noop_args c = ref_args c
+      else forall c, has_group_typed c = false -> row_args c = ref_args c /\ noop_args c = ref_args c).
+Proof. exact reading_agrees_decided. Qed.
+Print Assumptions C02_reading_agrees_decided.
+
+(* the same over SHEET ROWS (Comp/RefineSheet.v): a sheet row is one value - type with node kind and action payload, row
+   id, node name, `_nodeId`, edges - and what the reference reads (row_of) and what the compiler reads (crow_of) are
+   functions of it, as harness/rowref.py and comp_corr.py compute them: premise (1), the input encoding, is a definition.
+   Left: edge_ok of every edge and `_nodeId` <> the hard-exit marker (srow_ok), reads_same. *)
+Theorem C02_compile_refines_rowsem_sheet_partial : forall (G : GenNames) fresh validate name (rows : list srow) f ref,
+  (forall a b : nat, fresh a = fresh b -> a = b) -> (forall k, fresh k <> hard_exit_sentinel) ->
+  (forall us, validate us = None -> NoDup us) ->
+  Forall (@srow_ok G) rows -> Forall reads_same (map crow_of rows) ->
+  compile_with fresh validate name (map crow_of rows) = Ok f -> rowsem nab (map row_of rows) = Some ref ->
+  (forall t, traces ref t -> exists t', traces f t' /\ Forall2 (ematch sexp smatch) t t')
+  /\ (forall t, traces f t -> exists t', traces ref t' /\ Forall2 (ematch sexp (fun a b => smatch b a)) t t').
+Proof. exact @compile_refines_rowsem_sheet. Qed.
+Print Assumptions C02_compile_refines_rowsem_sheet_partial.
+
+(* ON A TREE WITH THE FOUR REPAIRS (tree_repaired: the four probed constants true - a05766f, f02a865, 7eafa08 and the
+   repair of category-name-clash) premises (2) and (3) are theorems: FOR EVERY SHEET of the core vocabulary, compile = Ok f
+   and rowsem = Some ref imply trace equivalence - provided only that no `_nodeId` is the hard-exit marker and no bucket of
+   a split_random is explicitly called "Bucket <n>" (sheet_ok: RandomRouter.add_choice invents such names and looks a name
+   up among all buckets; the same quirk as category-name-clash, not repaired).  Those two provisos are why the name still
+   ends in _partial. *)
+Theorem C02_compile_refines_rowsem_repaired_partial : forall fresh validate name (rows : list srow) f ref,
+  tree_repaired = true ->
+  (forall a b : nat, fresh a = fresh b -> a = b) -> (forall k, fresh k <> hard_exit_sentinel) ->
+  (forall us, validate us = None -> NoDup us) ->
+  sheet_ok rows ->
+  compile_with fresh validate name (map crow_of rows) = Ok f -> rowsem nab (map row_of rows) = Some ref ->
+  (forall t, traces ref t -> exists t', traces f t' /\ Forall2 (ematch sexp smatch) t t')
+  /\ (forall t, traces f t -> exists t', traces ref t' /\ Forall2 (ematch sexp (fun a b => smatch b a)) t t').
+Proof. exact compile_refines_rowsem_repaired. Qed.
+Print Assumptions C02_compile_refines_rowsem_repaired_partial.
+
+Example C02_sheet_rows_nonvacuous :
+  sheet_ok ex_srows
+  /\ exists f ref, compile std_fresh [102%N] (map crow_of ex_srows) = Ok f /\ rowsem nab (map row_of ex_srows) = Some ref
+                   /\ length (f_nodes f) = 4 /\ length (f_nodes ref) = 4.
+Proof. exact sheet_rows_nonvacuous. Qed.
+Print Assumptions C02_sheet_rows_nonvacuous.
+
 (* the boolean test the harness evaluates on every generated sheet is sound for the hypotheses above *)
-Theorem C02_fragb_sound : forall rows, fragb rows = true -> Forall row_ok rows /\ no_given rows /\ starts_with_node rows.
+Theorem C02_fragb_sound : forall rows,
+  fragb rows = true -> Forall (@row_ok (sheet_names rows)) rows /\ Forall reads_same rows.
 Proof. exact fragb_sound. Qed.
 Print Assumptions C02_fragb_sound.
 
@@ -68,9 +161,27 @@ Proof. exact compile_refines_rowsem_std. Qed.
 Print Assumptions C02_compile_refines_rowsem_std.
 
 (* non-vacuity: directed sheets of the harness lie in the fragment, compile (compiled nodes) and have a reference
-   meaning (reference nodes): an action row with conditional edges (implicit router: 6 vs 5 nodes), a go_to cycle,
+   meaning (reference nodes): a wait_for_response row with a timeout and two tests sharing a named category, value / group / random splits
+   (named, unnamed and re-targeted buckets), rows merged through a given node id and through a node name, given node ids, a sheet
+   whose first row opens a block, an action
+   row with conditional edges (implicit router: 6 vs 5 nodes), a go_to cycle,
    no_op forwarding and a no_op decision, nested blocks with a hard exit, enter-flow / webhook / airtime outcomes,
    hard and loose exits *)
+Example C02_refines_named_nonvacuous : refines_ex ex_router 6 6.
+Proof. exact refines_ex_router. Qed.
+Print Assumptions C02_refines_named_nonvacuous.
+Example C02_refines_splits_nonvacuous : refines_ex ex_splits 9 9.
+Proof. exact refines_ex_splits. Qed.
+Print Assumptions C02_refines_splits_nonvacuous.
+Example C02_refines_merged_nonvacuous : refines_ex ex_merged 3 3.
+Proof. exact refines_ex_merged. Qed.
+Print Assumptions C02_refines_merged_nonvacuous.
+Example C02_refines_given_nonvacuous : refines_ex ex_given 3 3.
+Proof. exact refines_ex_given. Qed.
+Print Assumptions C02_refines_given_nonvacuous.
+Example C02_refines_start_block_nonvacuous : refines_ex ex_start_block 3 3.
+Proof. exact refines_ex_start_block. Qed.
+Print Assumptions C02_refines_start_block_nonvacuous.
 Example C02_refines_implicit_nonvacuous : refines_ex ex_implicit 6 5.
 Proof. exact refines_ex_implicit. Qed.
 Print Assumptions C02_refines_implicit_nonvacuous.
